@@ -138,7 +138,8 @@ func (r *runner) sysRun(ce *caseEnv, idx int, timing bool, paths map[int][]strin
 	d.EnqueueMemCopyH2D(q, comm, zero)
 	d.EnqueueMemCopyH2D(q, out, zero)
 	co := kn.CodeObject()
-	d.EnqueueLaunchKernel(q, co, [3]uint32{uint32(nwg * kn.NWf * 64), 1, 1}, [3]uint16{uint16(kn.NWf * 64), 1, 1},
+	wgSize := kn.NWf*64 - sc.Kernels[0].Tail
+	d.EnqueueLaunchKernel(q, co, [3]uint32{uint32(nwg * wgSize), 1, 1}, [3]uint16{uint16(wgSize), 1, 1},
 		&sysArgs{Comm: comm, Out: out, C: 0x2211a55a})
 	res.comm, res.out = make([]byte, size), make([]byte, size)
 	d.EnqueueMemCopyD2H(q, res.comm, comm)
